@@ -66,7 +66,7 @@ func (e *Engine) verifyFunc(fn *ssa.Function) (res *FuncResult) {
 			res.Unsupported = append(res.Unsupported, fmt.Sprintf("engine panic: %v\n%s", r, debug.Stack()))
 		}
 	}()
-	st := &State{cells: map[*Cell]Term{}}
+	st := &State{cells: map[*Cell]Term{}, ptrs: map[*Cell]PV{}}
 	g := TTrue
 	m := e.mods[fn]
 	params := make([]Val, len(fn.Params))
